@@ -72,6 +72,24 @@ def membership_const(F, fn_path, run):
         pname = b["params"][0].get("name")
         yes = [p for p in ps if p.ret == ("lit", True)]
         no = [p for p in ps if p.ret == ("lit", False)]
+        # matches!(x, A | B | ..) over named string constants: the member set is what the compiler evaluates those constants to
+        if (len(yes) == 1 and len(no) == 1 and len(yes[0].conds) == 1 and len(no[0].conds) == 1 and not yes[0].trace and not no[0].trace
+                and yes[0].conds[0][0] == "match" and no[0].conds[0][0] == "match"
+                and yes[0].conds[0][1] == ("var", pname) and no[0].conds[0][1] == ("var", pname)
+                and isinstance(no[0].conds[0][4], dict) and no[0].conds[0][4].get("k") == "wild"):
+            pat = yes[0].conds[0][4]
+            alts = pat.get("pats", []) if isinstance(pat, dict) and pat.get("k") == "por" else [pat]
+            vals = []
+            for a in alts:
+                e = a.get("e", {}) if isinstance(a, dict) and a.get("k") == "pexpr" else {}
+                if e.get("k") == "lit" and isinstance(e.get("v"), str):
+                    vals.append(e["v"])
+                    continue
+                v = F.const_value(e.get("res", {}).get("path")) if e.get("k") == "path" else None
+                if not isinstance(v, str):
+                    return None
+                vals.append(v)
+            return ("set", frozenset(vals)) if vals else None
         if len(yes) == 1 and len(no) == 1:
             loops = [t for t in no[0].trace if is_call(t, "<for>")]
             inl = [c for c in yes[0].conds if c[0] == "if" and is_call(c[1], "<in-loop>") and c[2] is True]
@@ -203,7 +221,9 @@ def check(run, views, tier, with_ops=True):
                                     if mc:
                                         guard_const = mc
                             run.ob("R-ORDERLIST", "unordered emission is filtered by non-membership in the ordered list",
-                                   guard_const == L_path,
+                                   guard_const == L_path or (isinstance(guard_const, tuple) and guard_const[0] == "set"
+                                                             and isinstance(F.const_value(L_path), list)
+                                                             and guard_const[1] == frozenset(F.const_value(L_path))),
                                    "emission %r in the hash-map loop is guarded by membership in %s, the ordered list is %s (an attribute "
                                    "would be emitted twice or in hash order)" % (puts[0], guard_const, L_path), site(b),
                                    key="R-ORDERLIST|%s|filter" % FN)
